@@ -275,9 +275,9 @@ func c04Addressee(c *Ctx) {
 	dh := [3]string{"airgapped", "Machine", "handleStateDkgDealsAwaitConfirmations"}
 	part := `^am\.dkgInstances\[o\.DKGIdentifier\]#0\.GetParticipantByIndex\(next\(range\(am\.dkgInstances\[o\.DKGIdentifier\]#0\.GetDeals\(\)#0\)\)#1\)$`
 	checkArgs(c, []argSpec{
-		{"C04/R3", "airgapped.deals-handler:encrypt-for", dh, "airgapped.(Machine).encryptDataForParticipant", 2, part, "the deal for index i is encrypted for participant i", "deal encrypted to another participant's (e.g. the sender's own) key"},
-		{"C04/R3", "airgapped.deals-handler:encrypt-what", dh, "airgapped.(Machine).encryptDataForParticipant", 3, `^json\.Marshal\(next\(range\(.*GetDeals\(\)#0\)\)#2\)#0$`, "what is encrypted is that index's deal", "another deal encrypted"},
-		{"C04/R3", "airgapped.encryptDataForParticipant:key", [3]string{"airgapped", "Machine", "encryptDataForParticipant"}, "github.com/corestario/kyber/encrypt/ecies.Encrypt", 1, `^am\.dkgInstances\[dkgIdentifier\]#0\.GetPubKeyByParticipant\(to\)#0$`, "the ECIES key is the addressee's registered DKG public key", "another key"},
+		// (encryptDataForParticipant is expanded into the handler — load.flatten —: the ECIES call is judged in place)
+		{"C04/R3", "airgapped.deals-handler:encrypt-for", dh, "github.com/corestario/kyber/encrypt/ecies.Encrypt", 1, `^am\.dkgInstances\[o\.DKGIdentifier\]#0\.GetPubKeyByParticipant\(` + part[1:len(part)-1] + `\)#0$`, "the deal for index i is encrypted with the registered DKG public key of participant i", "deal encrypted to another participant's (e.g. the sender's own) key"},
+		{"C04/R3", "airgapped.deals-handler:encrypt-what", dh, "github.com/corestario/kyber/encrypt/ecies.Encrypt", 2, `^json\.Marshal\(next\(range\(.*GetDeals\(\)#0\)\)#2\)#0$`, "what is encrypted is that index's deal", "another deal encrypted"},
 	})
 	// o.To for the deal messages is the same participant
 	if fn := c.Fn("C04/R3", dh[0], dh[1], dh[2]); fn != nil {
